@@ -48,6 +48,16 @@
 (*                renamed over the good snapshot;                             *)
 (*   "remove"     the repaired reaction: close the file, remove it;           *)
 (*   "asrecorded" the reaction is part of Ops (sequence recorded by strace).  *)
+(* Directories.  Every call carries the directory of its file (da; for a      *)
+(* rename also the directory of the target, db; "data" = the directory of the  *)
+(* final name).  rename(2) is atomic - and possible at all - only within one   *)
+(* file system: with CrossDevice = TRUE every directory other than "data" is   *)
+(* on another file system and a rename across them fails (EXDEV) and changes   *)
+(* nothing; a recorded failing rename is the call "renamefail".  SameDirRename *)
+(* is the design rule (temporary file next to the target); Delivered says that *)
+(* a pass whose calls have all returned, without a fault injected, leaves the  *)
+(* snapshot it wrote under the final name - a writer whose temporary file is   *)
+(* in $TMPDIR satisfies it on one file system and never delivers on two.       *)
 (* Other failing system calls are not modelled.                               *)
 (*                                                                         *)
 (* Loader (decodeState): a sequence of length-delimited records; a missing  *)
@@ -62,14 +72,16 @@ CONSTANTS Ops,       \* <<[op, a, b, n, g], ...>>: the writer's file-system call
                      \*   writefail a n : a write that stores only n units and returns an error
                      \*   fsync  a    : fsync/fdatasync of handle a
                      \*   close  a    : close of handle a
-                     \*   rename a b  : rename(a, b)
+                     \*   rename a b  : rename(a, b) from directory da to directory db
+                     \*   renamefail a b : a rename that failed (recorded: EXDEV, ...); no effect
                      \*   unlink a    : unlink(a)
                      \*   dirsync     : fsync of the directory
           Recs,      \* Recs[g+1] = number of records of generation g
           U,         \* units per record
           Final,     \* the name the loader opens
           ZeroFill,  \* BOOLEAN: crash may expose zeros for unsynced data
-          OnWriteError \* "rename" | "remove" | "asrecorded": the writer's reaction to a failed write
+          OnWriteError, \* "rename" | "remove" | "asrecorded": the writer's reaction to a failed write
+          CrossDevice   \* BOOLEAN: directories other than "data" are on another file system
 
 VARIABLES pc,        \* number of calls of Ops executed
           ino,       \* sequence of inodes: [cached, synced]
@@ -203,11 +215,15 @@ Close(o) ==
   /\ hnd' = [hnd EXCEPT ![o.a] = 0]
   /\ UNCHANGED <<ino, dir, ddir, dlog>>
 
+NoEffect == UNCHANGED <<ino, dir, ddir, dlog, hnd>>
+
 Rename(o) ==
-  /\ dir[o.a] # 0
-  /\ dir' = [dir EXCEPT ![o.b] = dir[o.a], ![o.a] = 0]
-  /\ dlog' = Append(dlog, DOp("rename", o.a, o.b, 0))
-  /\ UNCHANGED <<ino, ddir, hnd>>
+  IF CrossDevice /\ o.da # o.db
+  THEN NoEffect            \* EXDEV: the file stays where it is, the target is untouched
+  ELSE /\ dir[o.a] # 0
+       /\ dir' = [dir EXCEPT ![o.b] = dir[o.a], ![o.a] = 0]
+       /\ dlog' = Append(dlog, DOp("rename", o.a, o.b, 0))
+       /\ UNCHANGED <<ino, ddir, hnd>>
 
 Unlink(o) ==
   /\ dir' = [dir EXCEPT ![o.a] = 0]
@@ -224,6 +240,7 @@ Exec(o) == CASE o.op = "create"    -> Create(o)
              [] o.op = "fsync"     -> Fsync(o)
              [] o.op = "close"     -> Close(o)
              [] o.op = "rename"    -> Rename(o)
+             [] o.op = "renamefail" -> NoEffect
              [] o.op = "unlink"    -> Unlink(o)
              [] o.op = "dirsync"   -> DirSync
 
@@ -243,7 +260,8 @@ Step ==
 
 \* the writer's reaction to the failed write of handle t (generation g), call by call, so
 \* that a crash may fall between any two of them
-RCall(op, a, b, g) == [op |-> op, a |-> a, b |-> b, n |-> 0, g |-> g]
+DirOfName(t) == Ops[CHOOSE j \in 1 .. Len(Ops) : Ops[j].op = "create" /\ Ops[j].a = t].da
+RCall(op, a, b, g) == [op |-> op, a |-> a, b |-> b, n |-> 0, g |-> g, da |-> DirOfName(a), db |-> "data"]
 Reaction(t, g) ==
   IF OnWriteError = "rename"
   THEN << RCall("fsync", t, "", g), RCall("close", t, "", g), RCall("rename", t, Final, g) >>   \* replaceFile.Close
@@ -295,6 +313,18 @@ SyncedBeforeRename ==
 \* the writer never touches the final name except by rename
 FinalOnlyByRename == pc >= 0 => \A j \in 1 .. Len(Ops) :
                        Ops[j].op \in {"create", "write", "writefail", "unlink"} => Ops[j].a # Final
+
+\* the temporary file is created next to the target: a rename is atomic, and possible, only
+\* within one file system
+SameDirRename == pc >= 0 => \A j \in 1 .. Len(Ops) :
+                   (Ops[j].op \in {"rename", "renamefail"} /\ Ops[j].b = Final) => Ops[j].da = Ops[j].db
+
+\* all calls have returned and no fault was injected into the last snapshot: it is what the
+\* final name holds (a pass that silently delivers nothing loses every change at the next start)
+MaxOf(S) == CHOOSE x \in S : \A y \in S : y <= x
+Delivered == (phase = "run" /\ pc = Len(Ops) /\ errh = "" /\ (1 .. begun) \ failed # {}) =>
+               LET g == MaxOf((1 .. begun) \ failed) IN
+               dir[Final] # 0 /\ ino[dir[Final]].cached = Full(g)
 
 \* vacuity probes (must be violated): a crash is reached with each outcome
 ProbeNew  == ~(phase = "crashed" /\ begun > 0 /\ Recover = Ok(Snap(begun)) /\ Snap(begun) # Snap(0))
